@@ -7,8 +7,9 @@ PROPERTY = "C15"
 LEVEL = "exploration"
 RULE = ("For each game four real executions are compared bit for bit: Model(tau=t, other...).rate(g) vs "
         "Model(tau=t', other...).rate(g, tau=t) for t in {0, 0.0, 1e-9beta, default, beta, 10beta, int 1} and a different "
-        "model-level t'; Model(limit_sigma=b).rate(g) vs Model(limit_sigma=not b).rate(g, limit_sigma=b); and both options "
-        "omitted vs both passed explicitly. Games are built so the options matter (sigma small against tau; weak evidence "
+        "model-level t'; Model(limit_sigma=b).rate(g) vs Model(limit_sigma=not b).rate(g, limit_sigma=b); both options "
+        "omitted vs both passed explicitly; and a model whose public tau / limit_sigma attributes were ASSIGNED after "
+        "construction vs a model constructed with those values. Games are built so the options matter (sigma small against tau; weak evidence "
         "so limit_sigma binds). Non-trivial: a third execution shows that the two settings of the option give different "
         "results on that game, so equality is informative; distinct by canonical hash of (game, option values).")
 ASSUMPTIONS = ["same code path on same float inputs => bit equality (T1)"]
@@ -18,7 +19,7 @@ REACH = ["rate"]
 def floors(tier):
     q = tier == "quick"
     return {"tau/per-call==model": 6000 if q else 960000, "limit/per-call==model": 6000 if q else 960000,
-            "omitted==explicit": 6000 if q else 960000, "tau=0": 1500 if q else 240000, "limit=False-over-True": 1500 if q else 240000}
+            "omitted==explicit": 6000 if q else 960000, "attribute-assigned==constructed": 6000 if q else 960000, "tau=0": 1500 if q else 240000, "limit=False-over-True": 1500 if q else 240000}
 
 
 def generate(ctx):
@@ -87,6 +88,22 @@ def probe_opt(ctx, payload):
         ctx.violation("omitted==explicit", "opt", payload,
                       dict(t=t, limit_sigma=lim, omitted=runs["both_omitted"].res[0][0], explicit=runs["both_explicit"].res[0][0]),
                       model, reg)
+    # "omitting the argument uses the model's own setting": the model's own setting is what its public attributes hold
+    # NOW - a model whose tau / limit_sigma were assigned after construction must behave like one constructed with them
+    from ..util import build
+    from ..attach import observe
+
+    c_attr = dict(case, cfg=dict(case["cfg"], tau=t_other, limit_sigma=(not lim)), call={})
+    m_attr, teams_attr, kw_attr = build(c_attr)
+    m_attr.tau = float(t)
+    m_attr.limit_sigma = lim
+    o_attr = observe(m_attr, "rate", teams_attr, **kw_attr)
+    ctx.ev("attribute-assigned==constructed")
+    got = None if o_attr.exc else [x.hex() for t_ in o_attr.res for p_ in t_ for x in (float(p_.mu), float(p_.sigma))]
+    if got != f["both_omitted"]:
+        ctx.violation("attribute-assigned==constructed", "opt", payload,
+                      dict(t=t, limit_sigma=lim, constructed=runs["both_omitted"].res[0][0],
+                           assigned=None if o_attr.exc else [o_attr.res[0][0].mu, o_attr.res[0][0].sigma]), model, reg)
     tau_matters = f["tau_model"] != f["tau_otherval"]
     lim_matters = f["lim_model"] != f["lim_otherval"]
     ctx.bucket("option_matters", f"tau={tau_matters}/limit={lim_matters}")
